@@ -194,6 +194,12 @@ def opOf (s : State) : Nat → Char
   | 0 => opC s.cpc
   | w+1 => opW (s.wpc w) (s.st w)
 
+/-! ### the lost-wake-up witness for the code as published (used by `C12_lost_wakeup_reachable` and emitted by the driver) -/
+def lostWakeupSchedule : List (Nat × Bool) :=
+  [(0,false),(0,false),(0,false),(0,false),(1,false),(1,false),(1,false),(1,false),(1,false),(1,false),(1,false),
+   (0,false),(0,false)]
+def lostWakeupCfg : Cfg := { n := 1, m := 2, less := fun _ _ => false, repaired := false }
+
 /-! ### ranking function (termination): decreases on every non-spurious transition -/
 def sumTo : Nat → (Nat → Nat) → Nat
   | 0, _ => 0
